@@ -15,6 +15,7 @@ import (
 	"github.com/nspcc-dev/neo-go/pkg/core"
 	"github.com/nspcc-dev/neo-go/pkg/core/block"
 	"github.com/nspcc-dev/neo-go/pkg/core/mpt"
+	"github.com/nspcc-dev/neo-go/pkg/core/native/nativehashes"
 	"github.com/nspcc-dev/neo-go/pkg/core/state"
 	"github.com/nspcc-dev/neo-go/pkg/core/statesync"
 	"github.com/nspcc-dev/neo-go/pkg/core/storage"
@@ -22,7 +23,10 @@ import (
 	"github.com/nspcc-dev/neo-go/pkg/io"
 	"github.com/nspcc-dev/neo-go/pkg/neotest"
 	"github.com/nspcc-dev/neo-go/pkg/neotest/chain"
+	"github.com/nspcc-dev/neo-go/pkg/smartcontract/trigger"
 	"github.com/nspcc-dev/neo-go/pkg/util"
+	"github.com/nspcc-dev/neo-go/pkg/vm/stackitem"
+	"github.com/nspcc-dev/neo-go/pkg/vm/vmstate"
 	"github.com/nspcc-dev/neo-go/verifharness/vlib/ev"
 	"github.com/nspcc-dev/neo-go/verifharness/vlib/rng"
 	"github.com/nspcc-dev/neo-go/verifharness/vlib/vchain"
@@ -161,6 +165,12 @@ func buildSource(t *testing.T, idx, blocks, interval, mtb int) *srcChain {
 	if p.Rejected != nil {
 		return s
 	}
+	s.seal(t)
+	return s
+}
+
+// seal reads the finished chain's headers.
+func (s *srcChain) seal(t *testing.T) {
 	bc := s.h.P.BC
 	s.n = bc.BlockHeight()
 	for i := uint32(0); i <= s.n; i++ {
@@ -171,7 +181,114 @@ func buildSource(t *testing.T, idx, blocks, interval, mtb int) *srcChain {
 		s.hdr = append(s.hdr, hd)
 		s.hdrRaw = append(s.hdrRaw, encodeHeader(hd))
 	}
-	return s
+}
+
+// oracleAnswer describes an oracle response transaction of a source block.
+type oracleAnswer struct {
+	tx         util.Uint256
+	request    util.Uint256 // the transaction that filed the request
+	reqHeight  uint32
+	sourceHALT bool
+}
+
+// oracleAnswers lists the oracle responses of source block i.
+func (s *srcChain) oracleAnswers(i uint32) []oracleAnswer {
+	var res []oracleAnswer
+	bc := s.h.P.BC
+	for _, tx := range s.h.P.Blocks[i-1].Transactions {
+		if !tx.HasAttribute(transaction.OracleResponseT) {
+			continue
+		}
+		a := oracleAnswer{tx: tx.Hash()}
+		aers, err := bc.GetAppExecResults(tx.Hash(), trigger.Application)
+		if err == nil && len(aers) == 1 {
+			a.sourceHALT = aers[0].VMState == vmstate.Halt
+			for _, e := range aers[0].Events {
+				if e.Name != "OracleResponse" || e.ScriptHash != nativehashes.OracleContract {
+					continue
+				}
+				if arr, ok := e.Item.Value().([]stackitem.Item); ok && len(arr) == 2 {
+					if b, err := arr[1].TryBytes(); err == nil {
+						if h, err := util.Uint256DecodeBytesBE(b); err == nil {
+							a.request = h
+							if _, hh, err := bc.GetTransaction(h); err == nil {
+								a.reqHeight = hh
+							}
+						}
+					}
+				}
+			}
+		}
+		res = append(res, a)
+	}
+	return res
+}
+
+// buildOracleSource builds the directed history that pins the known finding
+// "Oracle.finish needs the request's transaction": oracle requests are filed,
+// more than MaxTraceableBlocks blocks pass (a sync point lies in between, late
+// enough for the request transactions to be outside what a node synchronised
+// there stores), then the requests are answered. It returns the sync point.
+func buildOracleSource(t *testing.T, idx, interval, mtb int) (*srcChain, uint32) {
+	s := &srcChain{idx: idx, I: interval, mtb: mtb, tries: map[uint32]*trieData{}, states: map[uint32]*stateInfo{}}
+	s.proto = func(c *config.Blockchain) {
+		vchain.AllForks(c)
+		c.MaxTraceableBlocks = uint32(mtb)
+		c.MaxValidUntilBlockIncrement = 5
+		c.StateRootInHeader = true
+		c.StateSyncInterval = interval
+		c.P2PStateExchangeExtensions = true
+	}
+	old := func(p *vchain.Producer, _ *block.Block) { p.OracleMaxAge = 1000 }
+	s.h = vchain.BuildHistory(t, vchain.HistoryCfg{Idx: idx, Blocks: 14, Proto: s.proto, PName: "statesync-old-oracle-requests", NoQuiet: true, OnBlock: old})
+	p := s.h.P
+	if p.Rejected != nil {
+		return s, 0
+	}
+	p.OracleMaxAge = 1000
+	p.OnBlock = nil
+	ask := vchain.Weights{Oracle: 6, Deploy: 1}
+	idle := vchain.Weights{GasTransfer: 1}
+	point := uint32(0)
+	for cycle := 0; cycle < 5 && point == 0 && p.Rejected == nil; cycle++ {
+		p.Cfg.W = ask
+		for k := 0; k < 4 && p.Rejected == nil; k++ {
+			p.Step()
+		}
+		asked := uint32(len(p.Raw))
+		// the sync point: its stored blocks start above the requests
+		sp := (asked + uint32(mtb) + uint32(interval)) / uint32(interval) * uint32(interval)
+		sp = max(sp, uint32(2*interval))
+		p.Cfg.W = idle
+		for uint32(len(p.Raw)) < sp+1 && p.Rejected == nil {
+			p.Step()
+		}
+		p.Cfg.W = vchain.Weights{Oracle: 1}
+		for k := 0; k < 8 && point == 0 && p.Rejected == nil; k++ {
+			p.Step()
+			for _, a := range s.oracleAnswersOf(p, uint32(len(p.Raw))) {
+				if a.reqHeight > 0 && a.reqHeight+uint32(mtb) <= sp {
+					point = sp
+				}
+			}
+		}
+	}
+	p.Cfg.W = idle
+	for k := 0; k < 3 && p.Rejected == nil; k++ {
+		p.Step()
+	}
+	if p.Rejected == nil {
+		s.seal(t)
+	}
+	return s, point
+}
+
+// oracleAnswersOf is oracleAnswers for a chain still being built.
+func (s *srcChain) oracleAnswersOf(p *vchain.Producer, i uint32) []oracleAnswer {
+	if int(i) > len(p.Blocks) || i == 0 {
+		return nil
+	}
+	return s.oracleAnswers(i)
 }
 
 func (s *srcChain) block(i uint32) *block.Block {
@@ -1315,6 +1432,56 @@ func (s *syncer) compareAtSyncPoint(where string) *outcome {
 	return nil
 }
 
+// oracleFinding recognises the known finding behind a divergence at block i:
+// the block holds an oracle response that halts on the source, the transaction
+// that filed the request is not among those the synchronised node stores
+// (it is older than the blocks the node received), and - when the node did
+// accept the block - every other transaction of it ran with an equal result.
+func (s *syncer) oracleFinding(i uint32, rejected bool, symptom string) *outcome {
+	var hit *oracleAnswer
+	answers := s.src.oracleAnswers(i)
+	isAnswer := map[util.Uint256]bool{}
+	for k := range answers {
+		a := &answers[k]
+		isAnswer[a.tx] = true
+		if a.request == (util.Uint256{}) || a.reqHeight == 0 {
+			continue
+		}
+		if _, _, err := s.bc.GetTransaction(a.request); err != nil && hit == nil {
+			hit = a
+		}
+	}
+	if hit == nil {
+		return nil
+	}
+	if !rejected {
+		for _, tx := range s.src.h.P.Blocks[i-1].Transactions {
+			if isAnswer[tx.Hash()] {
+				continue
+			}
+			a, e1 := s.src.h.P.BC.GetAppExecResults(tx.Hash(), trigger.Application)
+			b, e2 := s.bc.GetAppExecResults(tx.Hash(), trigger.Application)
+			if e1 != nil || e2 != nil || len(a) != 1 || len(b) != 1 || vchain.AERString(&a[0]) != vchain.AERString(&b[0]) {
+				return nil // something else differs as well: not (only) the known finding
+			}
+		}
+		// the response itself: the source got past the request lookup (it halts, or
+		// faults later, in the callback), the node faults at the lookup
+		a, e1 := s.src.h.P.BC.GetAppExecResults(hit.tx, trigger.Application)
+		b, e2 := s.bc.GetAppExecResults(hit.tx, trigger.Application)
+		if e1 != nil || e2 != nil || len(a) != 1 || len(b) != 1 || b[0].VMState == vmstate.Halt || vchain.AERString(&a[0]) == vchain.AERString(&b[0]) {
+			return nil
+		}
+	}
+	how := "the node's execution of the response faults at the request lookup (less gas than on the source), every other transaction of the block ran equally"
+	if rejected {
+		how = "the node rejected the block: its state root after the block is not the one the next (already known) header commits to"
+	}
+	s.run.Obs("sync_oracle_response_without_retained_request_seen", 1)
+	return &outcome{"sync:oracle-response-faults-without-retained-request-transaction",
+		fmt.Sprintf("block %d (sync point %d, MaxTraceableBlocks %d): oracle response %s gets past the request lookup on the source (halt: %v); the request was filed by transaction %s at height %d, which the synchronised node does not store (GetTransaction fails); %s (%s)", i, s.p, s.src.mtb, hit.tx.StringLE(), hit.sourceHALT, hit.request.StringLE(), hit.reqHeight, how, symptom)}
+}
+
 // checkHistoric reads back, through the node's state module, the state of every
 // height the node has to retain: the node removes untraceable blocks, so its
 // trie works in the garbage-collecting mode and keeps the states of the last
@@ -1403,6 +1570,11 @@ func (s *syncer) lockstep() *outcome {
 			return &outcome{"sync:block-after-sync-panics:" + normMsg(pv), fmt.Sprintf("block %d: %v", i, pv)}
 		}
 		if err != nil {
+			if strings.Contains(err.Error(), "PrevStateRoot mismatch") {
+				if o := s.oracleFinding(i, true, err.Error()); o != nil {
+					return o
+				}
+			}
 			return &outcome{"sync:block-after-sync-rejected", fmt.Sprintf("block %d (sync point %d): %v", i, s.p, err)}
 		}
 		o, out := s.observe(false)
@@ -1410,6 +1582,9 @@ func (s *syncer) lockstep() *outcome {
 			return out
 		}
 		if n, d := obsDiff(s.src.h.P.Obs[i], o); n != "" {
+			if o := s.oracleFinding(i, false, d); o != nil {
+				return o
+			}
 			return &outcome{"sync:diverged-after-sync:" + n, fmt.Sprintf("height %d (sync point %d): %s", i, s.p, d)}
 		}
 		s.compared++
